@@ -176,6 +176,19 @@ class Export:
                 f"{'None' if gt is None or o.key == 'nets' else copt(cN(self.S(gt)))} {cN(ucode)} "
                 f"{cbool(st == 'install' and o.is_permanent())} {cbool(selected)})")
 
+    def reversible_marker(self, n):
+        """default_clean_decision takes a node for "reversible" (guarded removal) when, for some object, unset_mode_images or
+        unset_mode_vms - or, in their absence, the object's own typed unset_mode - starts with f. A key typed for the OTHER
+        object type is visible there (unset_mode_images=fi is seen through a vm object), so a node can be guarded although
+        none of its objects is marked. The model's `reversible` looks at the objects' own modes; the difference is carried
+        by an inert marker object (a net object that sets nothing, mode f), which nothing else in the model reads."""
+        def first(o, key):
+            op = o.object_typed_params(n.params)
+            return (op.get(key) or op.get("unset_mode", "ri"))[0]
+        guarded = any(first(o, "unset_mode_images") == "f" or first(o, "unset_mode_vms") == "f" for o in n.objects)
+        own = any(o.object_typed_params(n.params).get("unset_mode", "ri")[0] == "f" for o in n.objects)
+        return ["(mkObj 0%N true None None 0%N false true)"] if guarded and not own else []
+
     def cfg(self, n):
         from harness.props.c10 import cfg_term
         p = n.params
@@ -215,7 +228,7 @@ class Export:
                 f"{'None' if first is None else copt(cnat(first))} {self.cfg(n)} "
                 f"{'None' if mct is None else copt(cZ(int(mct)))} {cZ(int(p.get('max_tries', 1)))} {cZ(int(p.get('test_timeout', 3600)))} {cfloat(float(budget))} {cfloat(dt)} {cZ(int(round(dt * 100)))} "
                 f"{cN(0 if pf in ('reuse', 'block') else (1 if pf == 'copy' else 2))} {cbool('own' in scopes)} {cbool('shared' in scopes)} "
-                f"{clist([self.nobj(n, o) for o in n.objects])} {cnat(self.rank[i])})")
+                f"{clist([self.nobj(n, o) for o in n.objects] + self.reversible_marker(n))} {cnat(self.rank[i])})")
 
     def worker_term(self, w):
         members = [self.widx[v.id] for v in self.workers if w.swarm_id in v.id]
@@ -265,7 +278,7 @@ class Run:
         self.params = traverse_params
         self.sections = []          # (worker idx, outcome or None) as actually scheduled
         self.events = []            # per section
-        self.cur = []
+        self.cur = Section()
         self.monitor = []           # property monitors evaluated on the implementation's behaviour
         self.c01_detail = {}
         self.c01_removed = {}
@@ -422,9 +435,14 @@ class Run:
                 if e[0] == "pick" and e[3] is not None and 0 <= e[3] < len(self.x.nodes) and id(self.x.nodes[e[3]]) in cls:
                     reached.add(self.workers[e[1]].id)
         self.removal_log.append((worker.id, set(sts), reached))
-        if n.params.get("unset_mode", "ri")[0] != "f" and not any(
-                o.object_typed_params(n.params).get("unset_mode", "ri")[0] == "f" for o in n.objects):
-            self.monitor.append(("C05", "state removed although it is not marked for removal", w, ni))
+        # each removed state has to be a state this node sets on an object whose own (typed) unset_mode asks for removal
+        for okey, sname in sts:
+            objs = [o for o in n.objects if objid(o) == okey]
+            asked = any(o.object_typed_params(n.params).get("unset_mode", "ri")[0] == "f" and
+                        o.object_typed_params(n.params).get("set_state") == sname for o in objs)
+            if not asked:
+                self.monitor.append(("C05", f"state removed although it is not marked for removal ({okey}: {sname})", w, ni))
+                break
         for member in [n] + list(n.bridged_nodes):
             for child in member.cleanup_nodes:
                 cw = child.params.get("nets")
@@ -648,7 +666,7 @@ class Run:
                         node = pending[w]
                         out = outcome_of(rng, self, w, node)
                 self.sections.append((w, out if state[w] == "run" else "-"))
-                self.cur = []
+                self.cur = Section()
                 self.t += 1
                 send = out if state[w] == "run" else None
                 while True:
@@ -659,7 +677,7 @@ class Run:
                         state[w] = "done"
                         break
                     except Exception as e:      # traversal errors end that worker
-                        self.cur.append(("fail", w, classify(e), repr(e)[:160]))
+                        list.append(self.cur, ("fail", w, classify(e), repr(e)[:160]))
                         state[w] = "done"
                         break
                     if req[0] == "poll":        # the result polling of a never-reported test: same section
@@ -689,8 +707,23 @@ class Run:
         return self
 
 
+class SectionOverrun(Exception):
+    """raised from the recording hooks when one atomic section records more events than any terminating section could"""
+
+
+class Section(list):
+    LIMIT = 20000
+
+    def append(self, ev):
+        if len(self) >= self.LIMIT:
+            raise SectionOverrun(f"more than {self.LIMIT} steps inside one atomic section without an await")
+        list.append(self, ev)
+
+
 def classify(e):
     s = str(e)
+    if isinstance(e, SectionOverrun):
+        return 7
     if "without remaining" in s:
         return 1
     if "Discontinuous" in s:
